@@ -468,6 +468,19 @@ func c04CheckApply(c c04Config, withJ bool) string {
 	}
 	var err error
 	var pan interface{}
+	// a struct passed by value has no settable field: Apply must leave it alone, report nothing, and
+	// not let that call influence a later Apply with a pointer to the same struct type
+	func() {
+		defer func() { pan = recover() }()
+		if withJ {
+			err = inner.Apply(*(target.(*c04TargetJ)))
+		} else {
+			err = inner.Apply(*(target.(*c04Target)))
+		}
+	}()
+	if pan != nil || err != nil {
+		return fmt.Sprintf("Apply on a struct passed by value: panic %v, error %v (expected a no-op)", pan, err)
+	}
 	func() {
 		defer func() { pan = recover() }()
 		err = inner.Apply(target)
